@@ -8,7 +8,8 @@ def body(c):
     # ---- design: every interleaving of the shared-state model at the granularity of its atomic steps
     c.tlc_design("Threads", "Threads_quick.cfg" if q else "Threads_thorough.cfg", heap="24g", timeout=3400, workers=16)
     # the invariants are not vacuous: each named deviation breaks one of them
-    for cfg, inv in (("Threads_dev_id.cfg", "NamesUnique"), ("Threads_dev_drop.cfg", "NoLeak"), ("Threads_dev_scratch.cfg", "NonInterference")):
+    for cfg, inv in (("Threads_dev_id.cfg", "NamesUnique"), ("Threads_dev_drop.cfg", "NoLeak"), ("Threads_dev_scratch.cfg", "NonInterference"),
+                     ("Threads_dev_once.cfg", "NonInterference")):
         r = c.tlc("Threads", cfg, workers=16, heap="16g", timeout=1800)
         if r.ok or ("Invariant %s is violated" % inv) not in r.out:
             raise ToolError("deviation config %s does not violate %s: the invariant would be vacuous" % (cfg, inv))
